@@ -94,7 +94,11 @@ EqObservedIoU(v, x, y) ==
        /\ LET m == LMulMag(v.l, iu[2]) IN m[2] >= iu[1] - 5 /\ m[2] <= iu[1] + 4
 
 (* ---------------- the observation ---------------- *)
-IsLat(o) == o.in.kind = "lat"
+\* "lat": ticks of a coarse dyadic unit next to time 0.  "far": ticks of a fine dyadic unit (2^-10 s) counted from a
+\* huge origin (2^E s, in.bases[k]; 0 = no origin): short events far along the time axis.  The closed forms are ratios
+\* of tick differences, hence free of scale and -- away from 0, MC_Affinity!LawShift -- of origin: the same clauses
+\* apply; sh[k] is the pair at origin bases[k] (ds[k] = 0), so Shift compares origins 2^27 s apart.
+IsLat(o) == o.in.kind \in {"lat", "far"}
 K1(o) == IF IsLat(o) THEN o.in.g1.type ELSE o.in.k1
 K2(o) == IF IsLat(o) THEN o.in.g2.type ELSE o.in.k2
 Vals(run) == {run.v12, run.v21, run.v11, run.v22} \cup {run.sh[k].v : k \in DOMAIN run.sh}
